@@ -60,6 +60,7 @@ type writerCfg struct {
 	nExt    int
 	op      int64
 	extra   int64 // further state bits (ws.StateExtended = 4): the side must be tested as a flag
+	arena   int   // bytes of the caller's array behind the buffer (cap(raw) = rawLen + arena)
 }
 
 func (w writerCfg) String() string {
@@ -85,17 +86,19 @@ func newWriterObj(mm *fold.Machine, L *writerLayout, cfg writerCfg) (*fold.Obj, 
 		st.F[L.exts] = fold.SliceV{O: mm.NewObj("exts", fold.Arr{E: ext}), Len: int64(cfg.nExt), Cap: int64(cfg.nExt)}
 	}
 	st.F[L.noFlush] = fold.Bool(cfg.noFlush)
-	rawEl := make([]fold.Val, cfg.rawLen)
+	rawEl := make([]fold.Val, cfg.rawLen+cfg.arena)
 	for i := range rawEl {
-		if i < cfg.offset {
+		if i >= cfg.rawLen {
+			rawEl[i] = fold.Int{Lo: 0, Hi: 255, Name: fmt.Sprintf("callers%d", i-cfg.rawLen)}
+		} else if i < cfg.offset {
 			rawEl[i] = fold.Int{Lo: 0, Hi: 255, Name: fmt.Sprintf("junk%d", i)}
 		} else {
 			rawEl[i] = fold.Int{Lo: 0, Hi: 255, Name: fmt.Sprintf("p%d", i-cfg.offset)}
 		}
 	}
 	rawObj := mm.NewObj("raw", fold.Arr{E: rawEl})
-	st.F[L.raw] = fold.SliceV{O: rawObj, Len: int64(cfg.rawLen), Cap: int64(cfg.rawLen)}
-	st.F[L.buf] = fold.SliceV{O: rawObj, Lo: int64(cfg.offset), Len: int64(cfg.rawLen - cfg.offset), Cap: int64(cfg.rawLen - cfg.offset)}
+	st.F[L.raw] = fold.SliceV{O: rawObj, Len: int64(cfg.rawLen), Cap: int64(cfg.rawLen + cfg.arena)}
+	st.F[L.buf] = fold.SliceV{O: rawObj, Lo: int64(cfg.offset), Len: int64(cfg.rawLen - cfg.offset), Cap: int64(cfg.rawLen - cfg.offset + cfg.arena)}
 	st.F[L.n] = fold.K(int64(cfg.n))
 	st.F[L.dirty] = fold.Bool(cfg.dirty)
 	st.F[L.fseq] = fold.K(int64(cfg.fseq))
